@@ -154,28 +154,33 @@ Proof.
     + split; [exact J'|]. rewrite E, <- app_assoc. reflexivity.
 Qed.
 
-Lemma pass2_J : forall ss pm provs pm' provs', Gen.pass2 pm provs ss = OK (pm', provs') -> J pm provs ->
-  J pm' provs' /\ provs' = provs ++ flat_map fields_of ss.
+Lemma pass2_loop_J : forall fuel ss k pm provs pm' provs', Gen.pass2_loop fuel pm provs ss k = OK (pm', provs') -> J pm provs ->
+  J pm' provs' /\ exists ss', Permutation ss ss' /\ provs' = provs ++ flat_map fields_of ss'.
 Proof.
-  induction ss as [|s r IH]; intros pm provs pm' provs' H Jp; simpl in H.
-  - injection H as <- <-. rewrite app_nil_r. auto.
-  - destruct (hd_error (Gen.requires s)) as [st|] eqn:Eh; [|discriminate].
-    destruct (Gen.assoc st pm); [|discriminate].
-    destruct (Gen.add_fields pm provs st (Gen.sfields s)) as [[pm1 provs1]|] eqn:Af; [|discriminate].
-    destruct (add_fields_J st _ _ _ _ _ Af Jp) as (J1 & E1). destruct (IH _ _ _ _ H J1) as (J2 & E2).
-    split; [exact J2|]. rewrite E2, E1, <- app_assoc. cbn [flat_map]. unfold fields_of. rewrite Eh. reflexivity.
+  induction fuel as [|fuel IH]; intros ss k pm provs pm' provs' H Jp; simpl in H; [discriminate|].
+  destruct ss as [|s r].
+  - injection H as <- <-. split; [exact Jp|]. exists []. split; [constructor|]. rewrite app_nil_r. reflexivity.
+  - destruct (hd_error (Gen.requires s)) as [st|] eqn:Eh; [|discriminate]. destruct (Gen.assoc st pm).
+    + destruct (Gen.add_fields pm provs st (Gen.sfields s)) as [[pm1 provs1]|] eqn:Af; [|discriminate].
+      destruct (add_fields_J st _ _ _ _ _ Af Jp) as (J1 & E1). destruct (IH _ _ _ _ _ _ H J1) as (J2 & r' & P & E2).
+      split; [exact J2|]. exists (s :: r'). split; [constructor; exact P|].
+      rewrite E2, E1, <- app_assoc. cbn [flat_map]. unfold fields_of at 2. rewrite Eh. reflexivity.
+    + destruct (Gen.has_field_of st r && Nat.leb k (length r)); [|discriminate].
+      destruct (IH _ _ _ _ _ _ H Jp) as (J2 & ss' & P & E2). split; [exact J2|]. exists ss'. split; [|exact E2].
+      eapply Permutation_trans; [apply Permutation_cons_append|exact P].
 Qed.
 
-(* the supplier map of an accepted declaration, and the provider list it refers to *)
+(* the supplier map of an accepted declaration, and the provider list it refers to (the field accessors stand behind the
+   declared providers, in the order in which the structs were expanded) *)
 Theorem sup_char : forall d pm provs, dpm d = Some (pm, provs) ->
-  J pm provs /\ provs = Gen.d_provs d ++ flat_map fields_of (filter Gen.isstruct (Gen.d_provs d)).
+  J pm provs /\ exists ss, Permutation (filter Gen.isstruct (Gen.d_provs d)) ss /\ provs = Gen.d_provs d ++ flat_map fields_of ss.
 Proof.
   intros d pm provs H. unfold dpm in H. destruct (Gen.pass1 [] 0 (Gen.d_provs d)) as [pm1|] eqn:P1; [|discriminate].
   destruct (Gen.pass2 pm1 (Gen.d_provs d) (filter Gen.isstruct (Gen.d_provs d))) as [r|] eqn:P2; [|discriminate]. inversion H; subst r.
   assert (J1 : J pm1 (Gen.d_provs d)).
   { apply (pass1_J (Gen.d_provs d) [] [] pm1 P1). intros t pi gi. simpl. split; [discriminate|].
     intros (p & Hp & _). destruct pi; discriminate. }
-  apply (pass2_J _ _ _ _ _ P2 J1).
+  unfold Gen.pass2 in P2. apply (pass2_loop_J _ _ _ _ _ _ _ P2 J1).
 Qed.
 
 (* ---------------- permutations ---------------- *)
@@ -196,9 +201,12 @@ Proof.
   - eapply Permutation_trans; eauto.
 Qed.
 
-Lemma perm_all_provs ps ps' : Permutation ps ps' ->
-  Permutation (ps ++ flat_map fields_of (filter Gen.isstruct ps)) (ps' ++ flat_map fields_of (filter Gen.isstruct ps')).
-Proof. intros P. apply Permutation_app; [exact P|]. apply perm_flat_map. apply perm_filter. exact P. Qed.
+Lemma perm_all_provs ps ps' ss ss' : Permutation ps ps' -> Permutation (filter Gen.isstruct ps) ss -> Permutation (filter Gen.isstruct ps') ss' ->
+  Permutation (ps ++ flat_map fields_of ss) (ps' ++ flat_map fields_of ss').
+Proof.
+  intros P S S'. apply Permutation_app; [exact P|]. apply perm_flat_map.
+  eapply Permutation_trans; [apply Permutation_sym; exact S|]. eapply Permutation_trans; [apply perm_filter; exact P|exact S'].
+Qed.
 
 (* ---------------- the same value, standing at other positions ---------------- *)
 Section Same.
@@ -217,8 +225,8 @@ Theorem reorder_same_value : forall d d' pm provs pm' provs',
   dpm d = Some (pm, provs) -> dpm d' = Some (pm', provs') ->
   forall k v, ssize v <= k -> forall t, spec_den pm provs t v -> exists v', spec_den pm' provs' t v' /\ same_value provs provs' v v'.
 Proof.
-  intros d d' pm provs pm' provs' P H H'. destruct (sup_char d pm provs H) as (Jp & E). destruct (sup_char d' pm' provs' H') as (Jp' & E').
-  assert (PP : Permutation provs provs') by (rewrite E, E'; apply perm_all_provs; exact P).
+  intros d d' pm provs pm' provs' P H H'. destruct (sup_char d pm provs H) as (Jp & ss & S & E). destruct (sup_char d' pm' provs' H') as (Jp' & ss' & S' & E').
+  assert (PP : Permutation provs provs') by (rewrite E, E'; apply perm_all_provs; auto).
   induction k as [|k IH]; intros v Hk t D; [destruct v; simpl in Hk; lia|].
   destruct D as [t A|t pi gi p vs A Hp F].
   - exists (SArgT t). split; [|constructor]. constructor.
